@@ -4,6 +4,7 @@ import (
 	"errors"
 	"fmt"
 	"os"
+	"strings"
 	"sort"
 	"sync"
 	"time"
@@ -258,6 +259,58 @@ func (me *multiEnv) stepConcurrent(ps []*mPair) {
 				}
 				p.first = lo
 			}
+		}
+	}
+}
+
+// prune runs shovel.PruneTask(keep) (production runs it every ten minutes with
+// keep=200) and checks that every pair retains exactly its newest
+// min(keep, count) position rows and that no table row changes.
+func (me *multiEnv) prune(keep int) {
+	type st struct {
+		cursors []cursorRow
+		rows    string
+	}
+	before := map[string]st{}
+	for _, p := range me.pairs {
+		ps := p.pm.captureLive()
+		before[p.name()] = st{ps.cursors, strings.Join(ps.rows, "\n")}
+	}
+	if err := shovel.PruneTask(me.env.Ctx, me.env.Pool, keep); err != nil {
+		if us := me.env.PG.Unsupported(); len(us) > 0 {
+			me.c.Inconclusive("fakepg contract left by PruneTask: %v", us)
+			return
+		}
+		me.c.Violate(me.kp+"prune-failed", merge(me.detail(), map[string]any{"error": err.Error()}), "PruneTask failed: %v", err)
+		return
+	}
+	me.env.Rec.Take()
+	me.c.Obs("prunes", 1)
+	me.trace = append(me.trace, fmt.Sprintf("prune(%d)", keep))
+	for _, p := range me.pairs {
+		b := before[p.name()]
+		ps := p.pm.captureLive()
+		want := b.cursors
+		if len(want) > keep {
+			want = want[len(want)-keep:]
+		}
+		ok := len(want) == len(ps.cursors)
+		for i := 0; ok && i < len(want); i++ {
+			ok = want[i].num == ps.cursors[i].num
+		}
+		var got, exp []uint64
+		for _, x := range ps.cursors {
+			got = append(got, x.num)
+		}
+		for _, x := range want {
+			exp = append(exp, x.num)
+		}
+		if !ok {
+			me.c.Violate(me.kp+"prune-wrong-positions", merge(me.detail(), map[string]any{"pair": p.name(), "keep": keep, "positions_after": got, "expected": exp}),
+				"after PruneTask(%d) pair %s holds positions %v, expected its newest ones %v", keep, p.name(), got, exp)
+		}
+		if strings.Join(ps.rows, "\n") != b.rows {
+			me.c.Violate(me.kp+"prune-changed-rows", merge(me.detail(), map[string]any{"pair": p.name()}), "PruneTask changed table rows of %s", p.name())
 		}
 	}
 }
